@@ -338,10 +338,13 @@ static size_t prunerReplica(size_t S, VList & arr, std::vector<OracleCall> & tra
     return std::distance(begin, bound);
 }
 
-static void emit_prune(const VList & in, size_t S) {
+// `warm`: a set pruned FIRST with the same Pruner object (its result is discarded): the object keeps its LP and `scale_`
+// between calls, and the second result must not depend on the first (the model starts every call from `reset()`)
+static void emit_prune(const VList & in, size_t S, const VList * warm = nullptr) {
     { Line pre; pre << "#in" << "prune" << S << (size_t)in.size(); putVecs(pre, in); pre.emit(); }   // replay aid if the call below hangs or aborts
     VList arr = in;
     Pruner pr(S);
+    if (warm) { VList w = *warm; pr(w.begin(), w.end()); std::puts("#stat prune_on_a_used_pruner 1"); }
     std::vector<Snap> snaps;
     size_t e;
     { RecScope rs; auto it = pr(arr.begin(), arr.end()); e = (size_t)std::distance(arr.begin(), it); snaps = g_rec.snaps; }
@@ -591,6 +594,8 @@ static void fixed_case(long idx) {
             emit_prune(c, 3); emit_ed(c, 3);
             VList d{vec({3, 0, H}), vec({0, 3, H}), vec({1.75, 1.75, H}), vec({1.25, 1.25, H}), vec({-1, -1, 2 * H})};   // huge state shared: (1.75,1.75,H) needed, (1.25,1.25,H) not
             emit_prune(d, 3);
+            VList small{vec({4, 0, 1}), vec({0, 4, 1}), vec({2.5, 2.5, 0}), vec({1, 1, 3}), vec({1.5, 1.5, 1.5})};     // order-one set on a Pruner that has just seen the huge one, and the reverse
+            emit_prune(small, 3, &b); emit_prune(b, 3, &small);
         }
         break; }
     case 25: { // WitnessLP directly at the boundaries of its row scaling (first row's largest entry 2^16 | 2^17 | 2^-16 | 2^-17 | 0), no rows at all
@@ -632,7 +637,11 @@ static void mixed_case(Rng & rng, bool thorough) {
         const size_t S = 2 + rng.below(5), n = 3 + rng.below(thorough ? 14 : 10);
         int kind, expo; VList vs = genMixed(rng, S, n, kind, expo);
         std::printf("#stat mixed_kind%d 1\n#stat mixed_expo%d 1\n#stat mixed_dim%zu 1\n", kind, expo, S);
-        if (sub < 3) { std::puts("#stat mixed_op_prune 1"); emit_prune(vs, S); }
+        if (sub < 3) { std::puts("#stat mixed_op_prune 1");
+                       if (rng.coin()) emit_prune(vs, S);
+                       else {   // the same Pruner object has just pruned a set of another magnitude (2^-10 .. 2^-30 times this one, or the reverse)
+                           VList other = vs; const double f = std::ldexp(1.0, -(10 + (int)rng.below(21))); for (auto & x : other) x *= f;
+                           if (rng.coin()) emit_prune(vs, S, &other); else emit_prune(other, S, &vs); } }
         else if (sub < 5) {   // extractDominated, erase, Pruner (the pipeline of the exact solvers)
             std::puts("#stat mixed_op_ed_then_prune 1");
             emit_ed(vs, S); VList k = vs; k.erase(extractDominated(k.begin(), k.end()), k.end()); emit_prune(k, S); }
